@@ -1405,7 +1405,7 @@ impl<E: Elem> VecRun<E> {
 /// shorter than the vector - ends the process (zipora_verify -> abort).  While the finding is open the random drivers
 /// stay out of that region; the witness (mode witness) executes it in a child of its own on every run.
 /// Set to false once /verif/work/patches/C10-6.diff is applied.
-const KF8_EXCLUDED: bool = true;
+const KF8_EXCLUDED: bool = false;
 
 fn sanitize(name: &str) -> String {
     name.chars().map(|c| if c.is_ascii_alphanumeric() { c } else { '_' }).collect()
@@ -1757,7 +1757,7 @@ fn replay_vec<E: Elem>(a: &Args, name: &str, behaviours: &[Value], make: &dyn Fn
         (f, _) if f.ends_with("_zst") => usize::MAX,
         ("mmapvec", "persistent_cache") | ("mmapvec", "builder_flags") => 20 * a.get_u64("mmap_stride", 7) as usize,
         ("mmapvec", "cap_1_x2") | ("mmapvec", "cap_3_golden") => a.get_u64("mmap_stride", 7) as usize,
-        ("mmapvec", _) => 5 * a.get_u64("mmap_stride", 7) as usize,
+        ("mmapvec", _) => (if a.thorough() { 20 } else { 5 }) * a.get_u64("mmap_stride", 7) as usize,
         _ => 1,
     };
     let (mut executed, mut unsupported, mut mism, mut written, mut refused) = (0usize, 0usize, 0usize, 0usize, 0usize);
